@@ -107,12 +107,13 @@ static std::string cmd_snsweep(const std::vector<std::string>& a) {
 
 // ---------------------------------------------------------------------------------------------
 // RUN <sigver> <flags> <z> <weight|-> <script-hex> <stack items>
-struct RunCfg { int sigver; unsigned flags; bool z; bool has_w; int64_t w; valtype script; std::vector<valtype> stack; };
+struct RunCfg { int sigver; unsigned flags; bool z; bool has_w; int64_t w; valtype script; std::vector<valtype> stack; valtype succ; };
 
 static bool setup(Instance& inst, const RunCfg& c, std::string& why) {
     inst.sigver = (SigVersion)c.sigver;
     if (!inst.parse_script(c.script)) { why = "REFUSED:invalid-script"; return false; }
     inst.stack = c.stack;
+    inst.successor_script = CScript(c.succ.begin(), c.succ.end());
     if (c.has_w) {
         inst.execdata.m_validation_weight_left = c.w; inst.execdata.m_validation_weight_left_init = true;
         inst.execdata.m_annex_init = true; inst.execdata.m_annex_present = false;
@@ -129,11 +130,66 @@ static std::string end_of(Instance& inst, bool ok) {
     return "ERR:" + errname(inst.error);
 }
 
-static std::string cmd_run(const std::vector<std::string>& a, bool verbose) {
+static RunCfg parse_cfg(const std::vector<std::string>& a) {
     RunCfg c;
     c.sigver = std::stoi(a[1]); c.flags = std::stoul(a[2]); c.z = a[3] == "1";
     c.has_w = a[4] != "-"; c.w = c.has_w ? std::stoll(a[4]) : 0;
     unhex(a[5], c.script); c.stack = unhex_list(a.size() > 6 ? a[6] : "-");
+    if (a.size() > 7) unhex(a[7], c.succ);
+    return c;
+}
+
+// complete per-step execution state, as the properties about sessions name it
+static std::string full_state(Instance& inst) {
+    InterpreterEnv& e = *inst.env;
+    std::ostringstream o;
+    o << obs(e) << "|cs=" << (e.pbegincodehash - e.script.begin()) << "|cp=" << e.execdata.m_codeseparator_pos
+      << "|w=" << (e.execdata.m_validation_weight_left_init ? std::to_string(e.execdata.m_validation_weight_left) : std::string("-"))
+      << "|ops=" << e.nOpCount << "|pc=" << (e.pc - e.script.begin()) << "|len=" << e.script.size()
+      << "|seq=" << e.curr_op_seq << "|done=" << (e.done ? 1 : 0);
+    return o.str();
+}
+
+// SESSION <cfg fields: sigver flags z w script stack succ> <commands: string over {s,r}>
+// after every command: '+' accepted / '-' refused, then the hash of the full state; stops at a failing step ('!')
+static std::string cmd_session(const std::vector<std::string>& a, bool verbose) {
+    RunCfg c = parse_cfg(a);
+    std::string cmds = a.size() > 8 ? a[8] : "";
+    Instance inst; std::string why;
+    if (!setup(inst, c, why)) return why;
+    std::ostringstream o;
+    uint64_t hh = FNV_INIT; std::string marks; std::string vt;
+    for (char ch : cmds) {
+        bool ok;
+        if (ch == 's') {
+            if (inst.at_end()) { ok = false; }       // fn_step: "at end of script"
+            else { ok = inst.step(); if (!ok) { marks += '!'; break; } }
+        } else {
+            // fn_rewind: at_start -> refused; otherwise instance.rewind()
+            ok = !inst.at_start() && inst.rewind();
+        }
+        marks += ok ? '+' : '-';
+        std::string fs = full_state(inst);
+        char b[32]; snprintf(b, 32, "%016llx", (unsigned long long)fnv1a(FNV_INIT, fs));
+        hh = fnv1a(hh, b);
+        if (verbose) vt += " {" + fs + "}";
+    }
+    char b[32]; snprintf(b, 32, "%016llx", (unsigned long long)hh);
+    const bool failed = !marks.empty() && marks.back() == '!';
+    o << "marks=" << marks << " hs=" << b << " state=" << (failed ? std::string("-") : full_state(inst));
+    // outcome of continuing to the end from here
+    std::string r; bool ok = false;
+    if (marks.empty() || marks.back() != '!') {
+        try { ok = ContinueScript(*inst.env); r = ok ? "OK" : "ERR:" + errname(inst.error); }
+        catch (const std::exception& ex) { r = "EXC"; }
+        o << " cont=" << r << "/" << (ok ? obs(*inst.env) : std::string("-"));
+    }
+    if (verbose) o << " trace=" << vt;
+    return o.str();
+}
+
+static std::string cmd_run(const std::vector<std::string>& a, bool verbose) {
+    RunCfg c = parse_cfg(a);
     std::ostringstream o;
     // 1. stepping
     {
@@ -180,6 +236,8 @@ static std::string dispatch(const std::string& line) {
         if (a[0] == "SNSWEEP") return cmd_snsweep(a);
         if (a[0] == "RUN") return cmd_run(a, false);
         if (a[0] == "RUNV") return cmd_run(a, true);
+        if (a[0] == "SESSION") return cmd_session(a, false);
+        if (a[0] == "SESSIONV") return cmd_session(a, true);
     } catch (const std::exception& e) {
         return std::string("HARNESS-EXC ") + e.what();
     }
